@@ -410,7 +410,8 @@ fn sig(wl: &Workload, r: &SimResult) -> Vec<String> {
     if cancelled_compiles(r) > 0 {
         s.push("cancelled-compile".into());
     }
-    if is_quiescent(wl) && r.out.steps.iter().all(|st| !st.deviates || st.choice == crate::sched::Choice::W) {
+    // class Q: a save follows every edit (delivery is then strictly sequential, see `opts`) and no compile was cancelled
+    if is_quiescent(wl) && cancelled_compiles(r) == 0 {
         s.push("quiescent-edits".into());
     }
     if wl.gc {
@@ -477,6 +478,7 @@ pub const DEF: PropDef = PropDef {
     droppable,
     well_formed,
     deviation_signature: false,
+    group_change_save: true,
     rule: "one evaluation = one simulated run: a seeded 2-4 file no-std library (structs, constructors, consts, fns, optional sibling `use` imports) and a seeded history of 1-12 item-level edits (add/delete/rename items, toggle types, add/remove struct fields, break/repair syntax, whitespace), delivered as didChange (+ some didSave/requests) to the real incremental server under the seeded scheduler, so that compilations are cancelled at arbitrary abort points and GC / cache reuse vary; one third of the runs deliver strictly sequentially (fault-free batch). At quiescence a fresh server instance compiles the same final text; diagnostics of all files must be equal, and documentSymbol of every file for which the fresh compilation yields a program. distinct+non-trivial = distinct decision traces",
     components_real: &["sway_lsp::ServerState (incremental): module/program caches, GC, engines clone/commit/swap", "sway-core / forc-pkg compilation", "a second, fresh ServerState as the reference"],
     components_stub: &["JSON-RPC transport and tower-lsp router (dispatcher model)", "LSP client", "entropy (seeded shim)", "ps (fake)"],
